@@ -202,7 +202,7 @@ void CSRMatrix::mul_matrix(const MatrixBase &other, MatrixBase &result) const
 void CSRMatrix::elementwise_mul_matrix(const MatrixBase &other,
                                        MatrixBase &result) const
 {
-    if (is_a<CSRMatrix>(result)) {
+    if (is_a<CSRMatrix>(other) and is_a<CSRMatrix>(result)) {
         auto &o = down_cast<const CSRMatrix &>(other);
         auto &r = down_cast<CSRMatrix &>(result);
         csr_binop_csr_canonical(*this, o, r, mul);
